@@ -47,7 +47,7 @@ UGRID_AXES = [
     ("dtype", ["int64", "int32", "float64"]),
     ("names", ["standard", "exotic"]),
     ("lon", ["pm180", "0-360"]),
-    ("tables", ["none", "edge_node", "face_edge+edge_face", "centres"]),
+    ("tables", ["none", "edge_node", "face_edge+edge_face", "centres", "centres-lon360"]),
 ]
 
 
@@ -118,10 +118,10 @@ def ugrid(m, start_index=0, fill=-1, dtype="int64", names="standard", lon="pm180
             topo["edge_face_connectivity"] = nm["ef"]
             exp["face_edge"] = fe
             exp["edge_face"] = [sorted(x) for x in ef]
-    if tables == "centres":
+    if tables in ("centres", "centres-lon360"):  # centres-lon360: centre longitudes in 0..360 whatever the node convention is
         fc = np.array([sph.unit(0.7 * sph.unit(P[list(f)].mean(axis=0)) + 0.3 * P[f[0]]) for f in m.faces])
         flon, flat = sph.xyz2ll(fc)
-        if lon == "0-360":
+        if lon == "0-360" or tables == "centres-lon360":
             flon = flon % 360.0
         ds[nm["fx"]] = ((nm["fd"],), flon)
         ds[nm["fy"]] = ((nm["fd"],), flat)
@@ -225,26 +225,31 @@ def mpas(m, padding="zeros", optional="all", coords="both", dual=False, dtype="i
 
 
 # --------------------------------------------------------------------------- SCRIP
-SCRIP_AXES = [("lon", ["0-360", "pm180"]), ("area", [True]), ("pad", ["repeat-last"])]
+SCRIP_AXES = [("lon", ["0-360", "pm180"]), ("area", [True]), ("pad", ["repeat-last"]), ("clon", ["same", "0-360", "pm180"]), ("layout", ["C", "F"])]
 
 
-def scrip(m, lon="0-360", area=True, pad="repeat-last"):
+def scrip(m, lon="0-360", area=True, pad="repeat-last", clon="same", layout="C"):
     import xarray as xr
 
     lo, la = _ll(m, lon == "0-360")
     W = m.width
-    clon = np.zeros((m.n_face, W))
+    clon_tab = np.zeros((m.n_face, W))
     clat = np.zeros((m.n_face, W))
     for i, f in enumerate(m.faces):
         idx = list(f) + [f[-1]] * (W - len(f))
-        clon[i], clat[i] = lo[idx], la[idx]
+        clon_tab[i], clat[i] = lo[idx], la[idx]
     P = sph.ll2xyz(*m.lonlat())
     FC = np.array([sph.unit(P[list(f)].mean(axis=0)) for f in m.faces])
     flon, flat = sph.xyz2ll(FC)
     ds = xr.Dataset()
-    ds["grid_corner_lon"] = (("grid_size", "grid_corners"), clon, {"units": "degrees"})
-    ds["grid_corner_lat"] = (("grid_size", "grid_corners"), clat, {"units": "degrees"})
-    ds["grid_center_lon"] = (("grid_size",), flon % 360.0 if lon == "0-360" else flon, {"units": "degrees"})
+    cconv = lon if clon == "same" else clon  # the centres' longitude convention may differ from the corners'
+    clon_t, clat_t = clon_tab, clat
+    if layout == "F":
+        # corner tables that are not C-ordered in memory (built column-wise / transposed views): same content
+        clon_t, clat_t = np.asfortranarray(clon_tab), np.asfortranarray(clat)
+    ds["grid_corner_lon"] = (("grid_size", "grid_corners"), clon_t, {"units": "degrees"})
+    ds["grid_corner_lat"] = (("grid_size", "grid_corners"), clat_t, {"units": "degrees"})
+    ds["grid_center_lon"] = (("grid_size",), flon % 360.0 if cconv == "0-360" else flon, {"units": "degrees"})
     ds["grid_center_lat"] = (("grid_size",), flat, {"units": "degrees"})
     ds["grid_imask"] = (("grid_size",), np.ones(m.n_face, dtype=np.int32))
     ds["grid_area"] = (("grid_size",), np.array([sph.poly_area(P[list(f)]) for f in m.faces]))
@@ -287,10 +292,10 @@ def exodus(m, coordvar="coord", blocks="by-size", radius=1.0, dtype="int32"):
 
 
 # --------------------------------------------------------------------------- ESMF
-ESMF_AXES = [("start_index", ["absent", 1, 0]), ("centers", [True, False]), ("dtype", ["int32", "int64"]), ("padding", [-1, "junk"]), ("lon", ["0-360", "pm180"])]
+ESMF_AXES = [("start_index", ["absent", 1, 0]), ("centers", [True, False]), ("dtype", ["int32", "int64"]), ("padding", [-1, "junk"]), ("lon", ["0-360", "pm180"]), ("clon", ["same", "0-360", "pm180"])]
 
 
-def esmf(m, start_index="absent", centers=True, dtype="int32", padding=-1, lon="0-360"):
+def esmf(m, start_index="absent", centers=True, dtype="int32", padding=-1, lon="0-360", clon="same"):
     import xarray as xr
 
     lo, la = _ll(m, lon == "0-360")
@@ -313,7 +318,7 @@ def esmf(m, start_index="absent", centers=True, dtype="int32", padding=-1, lon="
     if centers:
         FC = np.array([sph.unit(0.8 * sph.unit(P[list(f)].mean(axis=0)) + 0.2 * P[f[0]]) for f in m.faces])
         flon, flat = sph.xyz2ll(FC)
-        ds["centerCoords"] = (("elementCount", "coordDim"), np.stack([flon % 360.0 if lon == "0-360" else flon, flat], axis=1), {"units": "degrees"})
+        ds["centerCoords"] = (("elementCount", "coordDim"), np.stack([flon % 360.0 if (lon if clon == "same" else clon) == "0-360" else flon, flat], axis=1), {"units": "degrees"})
         exp["face_centres"] = FC
     ds.attrs = {"gridType": "unstructured mesh", "version": "0.9"}
     return ds, exp
@@ -459,6 +464,8 @@ def face_vertices(m, container="list", latlon=True, layout="3d"):
 
 
 def topology(m, fill="INT_FILL", start_index=0, extra="none", lon="pm180"):
+    extra_lon360 = extra.endswith("-lon360")  # centre longitudes in 0..360 whatever the node convention is
+    extra = extra.replace("-lon360", "")
     lo, la = _ll(m, lon == "0-360")
     uniform = len({len(f) for f in m.faces}) == 1
     if fill is None and not uniform:
@@ -478,7 +485,7 @@ def topology(m, fill="INT_FILL", start_index=0, extra="none", lon="pm180"):
     if extra in ("centres", "edges+centres"):
         FC = np.array([sph.unit(0.7 * sph.unit(P[list(f)].mean(axis=0)) + 0.3 * P[f[0]]) for f in m.faces])
         flon, flat = sph.xyz2ll(FC)
-        d["face_lon"], d["face_lat"] = flon, flat
+        d["face_lon"], d["face_lat"] = (flon % 360.0 if extra_lon360 else flon), flat
         exp["face_centres"] = FC
     return d, exp
 
